@@ -455,6 +455,43 @@ def check_C07(tier):
     return c.finish()
 
 
+def check_C17(tier):
+    c = Ctx("C17", tier)
+    q = tier == "quick"
+    cp = c.case_path("C17")
+    n, md = (3, 1) if q else (3, 2)
+    c.mc("Container", "MC_C17.cfg", dict(N=n, MaxDamage=md, Deviations="{}", Emit="Emit"), timeout=1500, case_file=cp,
+         label="writer -> damage -> reader machines: RoundTrip, FailClosed, NeverPartial")
+    for dev, inv in [("CarB64BytesNoDecode", "RoundTrip"), ("NoIntegrityCheck", "FailClosed"), ("AddTokenNoVerify", "FailClosed")]:
+        c.mc("Container", "MC_C17.cfg", dict(N=2, MaxDamage=1, Deviations='{"%s"}' % dev, Emit=""), expect_violation=[inv, "NeverPartial"],
+             label="sensitivity: " + dev)
+    c.replay("container", cp, rule="%d real tokens (delegations and invocations, mixed algorithms) in every insertion order x 4 formats x "
+             "{bytes,stream} writer x {bytes,stream} reader x <=%d damage actions (entry: flipped data bit, re-sealed data with recomputed "
+             "CID, flipped / swapped block CID, truncated / zero-length / oversize section, non-bytes element; frame: version, extra key, "
+             "non-map, invalid base64 character; benign: reorder, duplicate, foreign valid CID); non-trivial = harmful damage" % (n, md))
+    return c.finish()
+
+
+def check_C18(tier):
+    c = Ctx("C18", tier)
+    q = tier == "quick"
+    cp = c.case_path("C18")
+    c.mc("Stream", "MC_C18.cfg", dict(MaxWrites=6, Deviations="{}", Emit="Emit"), timeout=900, case_file=cp,
+         label="reader machine (CIDReader latch, decoder pulls, trailing probe) = Allowed; writer: every failed underlying write surfaces")
+    c.mc("Stream", "MC_C18.cfg", dict(MaxWrites=4, Deviations='{"B64CloseErrDropped"}', Emit=""), expect_violation="WriteFaultSurfaces",
+         label="sensitivity: B64CloseErrDropped")
+    c.mc("Stream", "MC_C18.cfg", dict(MaxWrites=4, Deviations='{"CidReaderNoLatch"}', Emit=""), expect_violation="ReadAgreesOrFails",
+         label="sensitivity: CidReaderNoLatch")
+    c.replay("stream", cp, rule="artefacts {sealed delegation / invocation, CBOR and CAR containers of 1..3 tokens, plain and base64} x "
+             "fault {none, read error, early EOF} at the start of / inside every unit and after the last byte x read shape (0,err)/(n,err) x "
+             "chunking {1-byte, data-with-EOF, random split}; writer: failing underlying write incl. the final flush; non-trivial = a fault")
+    tr = c.drive("streamall", 60 if q else 0)
+    c.validate("streamall", "TraceStream", "TraceStream.cfg", tr, timeout=3000,
+               rule=("~60 offsets per artefact" if q else "EVERY byte offset") + " x {read error, early EOF} and EVERY underlying write of "
+                    "6 (quick) / 9 artefacts x 3 paddings (base64 tails of every residue), judged by TraceStream")
+    return c.finish()
+
+
 CHAIN = {
     "C01": dict(q="MC_C01_q.cfg", t=["MC_C01_t.cfg", "MC_C01_t4.cfg"], dev='{"AudAsSubject"}',
                 rule="every invocation x proof list over principals {A,B,M}(+C), links over all principals, Undef subject and "
@@ -501,7 +538,7 @@ def check_chain(pid):
     return run
 
 
-CHECKS = {"C13": check_C13, "C15": check_C15, "C12": check_C12, "C14": check_C14, "C11": check_C11, "C16": check_C16, "C06": check_envelope("C06"), "C10": check_envelope("C10"), "C07": check_C07}
+CHECKS = {"C13": check_C13, "C15": check_C15, "C12": check_C12, "C14": check_C14, "C11": check_C11, "C16": check_C16, "C06": check_envelope("C06"), "C10": check_envelope("C10"), "C07": check_C07, "C17": check_C17, "C18": check_C18}
 for _p in CHAIN:
     CHECKS[_p] = check_chain(_p)
 
